@@ -333,6 +333,26 @@ pub fn take_notes() -> Vec<Note> {
     std::mem::take(&mut *NOTES.lock().unwrap())
 }
 
+/// Record the state-less copy of a supervision event that is about to be sent to the monitor `to`
+/// (feature `monitors`): a text note `monemit <to pid> <kind> <who pid> s<0|1> <text|->`.
+pub fn note_mon(to: &crate::ActorCell, evt: &crate::SupervisionEvent) {
+    let (kind, has_state, text) = match evt {
+        crate::SupervisionEvent::ActorStarted(_) => ("Started", false, None),
+        crate::SupervisionEvent::ActorTerminated(_, st, reason) => {
+            ("Terminated", st.is_some(), reason.clone())
+        }
+        crate::SupervisionEvent::ActorFailed(_, err) => ("Failed", false, Some(format!("{err}"))),
+        _ => ("Other", false, None),
+    };
+    note(format!(
+        "monemit {} {kind} {} s{} {}",
+        to.get_id().pid(),
+        evt.actor_id().map(|a| a.pid().to_string()).unwrap_or_else(|| "-".into()),
+        u8::from(has_state),
+        text.map(|t| t.replace(' ', "_")).unwrap_or_else(|| "-".into())
+    ));
+}
+
 /// Record a supervision event that is about to be sent to `to`.
 pub fn note_sup(to: &crate::ActorCell, evt: &crate::SupervisionEvent) {
     let (kind, has_state, text) = match evt {
